@@ -275,6 +275,7 @@ type rtRun struct {
 	maxQueue     int
 	free         atomic.Bool
 	srcErrs      []rtSrcErrGot
+	rootCancelStep int
 	lateResults  []string
 }
 
